@@ -41,7 +41,25 @@ func Partition(c *core.Case) []*memstore.Store {
 			cut := len(s.Samples) / 2
 			a, b := i%n, (i+1)%n
 			groups[a] = append(groups[a], core.Series{Labels: s.Labels, Samples: s.Samples[:cut]})
-			groups[b] = append(groups[b], core.Series{Labels: s.Labels, Samples: s.Samples[cut:]})
+			// The second half starts only after a pause longer than any lookback or range:
+			// otherwise both engines deliver the series at the steps next to the cut, and
+			// whether the merged result fails with "same labelset" or not depends on which
+			// of the two a topk on the remote side happens to keep.
+			rest := s.Samples[cut:]
+			if cut > 0 {
+				gap := c.Lookback
+				if c.QLookback > gap {
+					gap = c.QLookback
+				}
+				if gap < 300000 {
+					gap = 300000
+				}
+				gap += 600000
+				for len(rest) > 0 && rest[0].T <= s.Samples[cut-1].T+gap {
+					rest = rest[1:]
+				}
+			}
+			groups[b] = append(groups[b], core.Series{Labels: s.Labels, Samples: rest})
 		}
 		out := make([]*memstore.Store, n)
 		for i := range groups {
